@@ -105,7 +105,7 @@ def group_runs(g, tier):
         def H(cfg, names='ascii', b=1, walks=60, length=60, lower=False, depth=1, extreme=True, inst='MC_Handles_q'):
             return dict(kind='handles', cfg=cfg, names=names, b=b, walks=walks, len=length, lower=lower, depth=depth, extreme=extreme, inst=inst, tspec='Trace_Handles')
         k = 1 if q else 12
-        runs = [H('mem', walks=120 * k), H('phys', walks=80 * k), H('mem', b=4096, names='multi', walks=30 * k), H('phys', b=8193, names='dotted', walks=20 * k),
+        runs = [H('mem', walks=300 * k), H('phys', walks=120 * k), H('mem', b=4096, names='multi', walks=60 * k), H('phys', b=8193, names='dotted', walks=30 * k),
                 H('alt(zr,mem)', walks=30 * k, depth=2), H('alt(zr/zs,phys)', walks=20 * k, b=3),
                 H('ovl(mem,mem)', walks=60 * k), H('ovl(mem,mem)', walks=60 * k, lower=True), H('ovl(mem,mem,mem)', walks=30 * k, lower=True, depth=2, b=2),
                 H('ovl(phys,phys)', walks=20 * k, lower=True), H('ovl(phys,mem)', walks=20 * k, lower=True, b=8192, names='prefix'),
@@ -138,7 +138,7 @@ def group_runs(g, tier):
             W('async:ovl(mem,mem,mem)', 'random', walks=8 * k, length=40), W('async:ovl(phys,phys)', 'random', walks=5 * k, length=30),
             W('async:alt(zr,ovl(mem,mem))', 'random', walks=8 * k, length=40), W('async:ovl(alt(zu,mem),mem)', 'random', names='prefix', walks=8 * k, length=40),
             dict(kind='awalk', cfgs='mem;ovl(mem,mem);alt(zr,mem);phys;ovl(phys,mem)', trees=6 * k, dense=10, pair_frac=0.1 if q else 1.0, tspec='Trace_WalkAsync'),
-            H('async:mem', walks=60 * k), H('async:mem', b=4096, names='multi', walks=15 * k, depth=2), H('async:ovl(mem,mem)', walks=30 * k), H('async:alt(zr,mem)', walks=20 * k, depth=2),
+            H('async:mem', walks=150 * k), H('async:mem', b=4096, names='multi', walks=30 * k, depth=2), H('async:ovl(mem,mem)', walks=30 * k), H('async:alt(zr,mem)', walks=20 * k, depth=2),
             H('async:phys', walks=30 * k, nz=True), H('async:phys', b=8193, walks=8 * k, nz=True), H('async:ovl(phys,phys)', walks=10 * k, nz=True),
             H('async:phys', walks=4, nz=False),   # keeps the known finding (zero-length read on async physical handles) under observation
             dict(kind='twowriters', cfgs='mem;ovl(mem,mem);alt(zr,mem);ovl(mem,mem,mem)', scripts=60 * k, b=1, tspec='Trace_TwoWriters'),
